@@ -69,7 +69,10 @@ class HalfRec(RecProtocol):
 
 
 def configs(tier):
-    return [{"half": False}, {"half": False}, {"half": True}]
+    # the fourth configuration: a burst of 51..80 opens of one subprotocol
+    # arriving before the peer's listener exists
+    return [{"half": False}, {"half": False}, {"half": True},
+            {"half": False, "burst": True}]
 
 
 def run_one(seed, tape, opts):
@@ -92,6 +95,12 @@ def run_one(seed, tape, opts):
         ops = []
         big = opts.get("_tier") == "thorough"
         nsub = tape.choose(7 if big else 4, "nsub")
+        if opts.get("burst") and s is w.sides[0]:
+            nsub = 51 + tape.choose(30, "burst_n")
+            bname = tape.pick(POOL, "burst_name")
+            for i in range(nsub):
+                ops.append(("open", bname))
+            nsub = 0
         for i in range(nsub):
             ops.append(("open", tape.pick(POOL, "oname")))
         for j in range(tape.choose(30 if big else 10, "nops")):
@@ -122,6 +131,21 @@ def run_one(seed, tape, opts):
                 _half_close(wl, side, op)
             else:
                 wl_run(side, op)
+    if opts.get("burst"):
+        # the peer registers its listeners only once the whole burst has been
+        # issued (an application that listens after when_dilated / late)
+        opener, peer_side = w.sides[0], w.sides[1]
+        nburst = sum(1 for o in scripts[opener.name] if o[0] == "open")
+        orig_enabled = wl._enabled
+
+        def enabled(side, op):
+            if side is peer_side and op[0] == "listen":
+                issued = sum(1 for o in scripts[opener.name][:wl.pc[
+                    opener.name]] if o[0] == "open")
+                if issued < nburst:
+                    return False
+            return orig_enabled(side, op)
+        wl._enabled = enabled
     wl_run = wl._run
     wl._run = lambda side, op: run_op(side, op) \
         if op[0] in ("listen", "open", "close", "aclose") else wl_run(side, op)
